@@ -356,14 +356,21 @@ def gen_case(ctx):
     labels = cases.LABELS_NUM if cat_dissim == "numerical" else rng.choice([cases.LABELS_WORDS, cases.LABELS_SMALL])
     fmt = rng.choice(["csv", "csv", "csv", "rttm"])
     files = []
-    for _ in range(rng.choice([1, 1, 1, 1, 2])):
+    for _ in range(rng.choice([1, 1, 1, 2, 2])):
         n = rng.randint(2, 3)
         cs = cases.gen_continuum(rng, n_annot=n, max_units=5, allow_empty=False, labels=labels,
                                  family=rng.choice(["grid", "dyadic", "touching", "longoverlap"]))
         if fmt == "rttm":   # non-negative times with few decimals
             cs = cases.gen_continuum(rng, n_annot=n, max_units=5, allow_empty=False, labels=labels, family=rng.choice(["grid", "dyadic"]))
         files.append({"ann": cs["ann"]})
-    options = {"seed": rng.randrange(1, 100000) if rng.random() < 0.93 else None,
+    if len(files) == 2 and rng.random() < 0.6:
+        # the second file only uses a strict "inner" subset of the first file's categories (smaller spread / fewer names)
+        used = sorted({u[2] for us in files[0]["ann"].values() for u in us}, key=lambda l: (len(l), l))
+        if len(used) >= 3:
+            inner = used[1:-1]
+            files[1] = {"ann": {a: [[u[0], u[1], rng.choice(inner)] for u in us] for a, us in files[1]["ann"].items()}}
+    options = {"seed": rng.choice([0, 0, 1, rng.randrange(1, 100000), rng.randrange(1, 100000), rng.randrange(1, 100000)])
+               if rng.random() < 0.93 else None,
                "alpha": rng.choice([None, 0.5, 2, 3, 0]), "beta": rng.choice([None, 0.5, 2, 0]),
                "delta": rng.choice([None, 0.5, 2, 0.1]), "precision": rng.choice([0.1, 0.2, 0.2, 0.5, 0.5, 0.3, None if rng.random() < 0.3 else 0.4]),
                "n_samples": rng.choice([None, 3, 5, 10, 20]) if rng.random() < 0.9 else None,
